@@ -1,3 +1,6 @@
+import os, importlib.util
+_sp = importlib.util.spec_from_file_location('vmjobs', os.path.join(os.path.dirname(os.path.abspath(__file__)), '..', 'vm', 'vmjobs.py'))
+vm = importlib.util.module_from_spec(_sp); _sp.loader.exec_module(vm)
 BASE = ['@world/world_base.c', '@world/libc_models.c']
 def jobs(tier, ctx):
     out = []
@@ -14,4 +17,6 @@ def jobs(tier, ctx):
                                 inputs='flags of each function, both origins, whether the earlier call happens, #args',
                                 assumptions=['function tables satisfy the documented invariants (sorted by name pointer, runtime indices consistent); table construction by the compiler is outside',
                                              'frame set-up, argument set-up and bytecode execution are recording stubs', 'cache starts empty; names at fixed addresses (concrete per run)']))
+    # ('::' calls: a CALL_INHERITED mode of the step engine exists (harness/vm/vm_step.c) but its symex does not finish in 300 s;
+    #  not part of any tier)
     return out
